@@ -616,7 +616,16 @@ fn main() {
                     let t = a.tier.clone();
                     let c = opaque_differential("C01", tier);
                     let t1 = Instant::now();
-                    let (n, viol, err) = check_c12::backpressure_gets(tier, &[wire::op::GET, wire::op::GETK, wire::op::GETQ]);
+                    let (mut n, mut viol, mut err) = check_c12::backpressure_gets(tier, &[wire::op::GET, wire::op::GETK, wire::op::GETQ]);
+                    {
+                        // a store acknowledged (or sent quietly) behind a large store is returned like any other
+                        let (n2, v2, e2) = check_c12::large_then_followers(tier);
+                        n += n2;
+                        viol.extend(v2);
+                        if err.is_none() {
+                            err = e2;
+                        }
+                    }
                     let d = CheckOutcome {
                         property: "C01".into(),
                         tier: t.clone(),
@@ -624,7 +633,7 @@ fn main() {
                         coverage: json!({
                             "states": n, "transitions": n, "traces_validated_against_impl": n, "evaluations": n, "distinct_nontrivial": n,
                             "exhaustive": true,
-                            "rule": "large stored values read back through a full socket over real TCP: opcodes get/getk/getq x item sizes x pipelined counts; the client reads only after the server blocked on the full socket; every retrieval must return exactly the stored value bytes and flags",
+                            "rule": "large stored values read back through a full socket over real TCP: opcodes get/getk/getq x item sizes x pipelined counts; the client reads only after the server blocked on the full socket; every retrieval must return exactly the stored value bytes and flags; and a large store with a quiet store, two gets and a noop pipelined behind it (one write, and cut 1 .. 40 bytes behind the large request): both items come back exactly",
                         }),
                         assumptions: vec![],
                         violations: viol.into_iter().map(|(s, w)| Violation { signature: s, what: w, replay: json!({"engine": "c12-backpressure"}) }).collect(),
